@@ -133,6 +133,9 @@ impl<S: Stream + Unpin> Stream for MergeUnbounded<S> {
             let poll = Pin::new(&mut groups[*poll_next]).poll_next(cx);
             match poll {
                 Poll::Ready(Some(x)) => {
+                    // start with the next group next time, so that a group that always has
+                    // something ready cannot starve the others
+                    *poll_next += 1;
                     return Poll::Ready(Some(x));
                 }
                 Poll::Ready(None) => {
@@ -160,6 +163,11 @@ impl<S: Stream + Unpin> Stream for MergeUnbounded<S> {
                     *poll_next += 1;
                 }
             }
+        }
+        if groups.iter().all(|g| g.streams.is_empty()) {
+            // every group turned out to be empty (the last one may have been rotated to the
+            // back and not been visited again)
+            return Poll::Ready(None);
         }
         Poll::Pending
     }
